@@ -176,7 +176,7 @@ type c01Run struct {
 	mu      sync.Mutex
 	ended   map[int]bool   // OnEnd returned
 	ffRes   map[int]string // fid -> p|o|e
-	sdRes   string         // n|p|o|e
+	sdRes   []string       // one of p|o|e per Shutdown call, in call order (empty: none called)
 	pending sync.WaitGroup
 	pkSpan  map[int]*c01ParkReq
 	pkFF    map[int]*c01ParkReq
@@ -214,7 +214,10 @@ func (r *c01Run) obs() string {
 		ended = append(ended, id)
 	}
 	sort.Ints(ended)
-	sd := r.sdRes
+	sd := "n"
+	if len(r.sdRes) > 0 {
+		sd = strings.Join(r.sdRes, "")
+	}
 	r.mu.Unlock()
 	f := "-"
 	if len(fs) > 0 {
@@ -258,8 +261,21 @@ func c01RunSched(capQ, maxB int, blocking bool, ops []string, win time.Duration)
 		opts = append(opts, WithBlocking())
 	}
 	bsp := NewBatchSpanProcessor(exp, opts...).(*batchSpanProcessor)
-	r := &c01Run{bsp: bsp, exp: exp, ended: map[int]bool{}, ffRes: map[int]string{}, sdRes: "n",
+	r := &c01Run{bsp: bsp, exp: exp, ended: map[int]bool{}, ffRes: map[int]string{},
 		pkSpan: map[int]*c01ParkReq{}, pkFF: map[int]*c01ParkReq{}}
+	// a Shutdown call (any number of them, each in its own goroutine): records its result under its call index
+	shutdownCall := func(idx int) func() {
+		return func() {
+			err := bsp.Shutdown(context.Background())
+			r.mu.Lock()
+			if err == nil {
+				r.sdRes[idx] = "o"
+			} else {
+				r.sdRes[idx] = "e"
+			}
+			r.mu.Unlock()
+		}
+	}
 	out := []string{}
 	for _, op := range ops {
 		switch {
@@ -287,22 +303,18 @@ func c01RunSched(capQ, maxB int, blocking bool, ops []string, win time.Duration)
 			}
 		case op == "sp": // Shutdown parked right after it stored `stopped`
 			r.mu.Lock()
-			first := r.sdRes == "n"
-			if first {
-				r.sdRes = "p"
-			}
+			idx := len(r.sdRes)
+			r.sdRes = append(r.sdRes, "p")
 			r.mu.Unlock()
-			if first {
-				r.pkSd = c01ParkCall(r, "bsp.Shutdown.stored", func() {
-					err := bsp.Shutdown(context.Background())
-					r.mu.Lock()
-					if err == nil {
-						r.sdRes = "o"
-					} else {
-						r.sdRes = "e"
-					}
-					r.mu.Unlock()
-				})
+			if idx == 0 {
+				r.pkSd = c01ParkCall(r, "bsp.Shutdown.stored", shutdownCall(idx))
+			} else {
+				// not the first call: it waits inside stopOnce.Do and never reaches the hook — an ordinary call
+				r.pending.Add(1)
+				go func() {
+					defer r.pending.Done()
+					shutdownCall(idx)()
+				}()
 			}
 		case op == "sr":
 			if r.pkSd != nil {
@@ -355,27 +367,23 @@ func c01RunSched(capQ, maxB int, blocking bool, ops []string, win time.Duration)
 				close(req.release)
 				delete(r.pkSpan, id)
 			}
-		case op == "s":
+		case op == "s": // every `s` is a Shutdown call of its own goroutine: the first wins stopOnce, the others wait in Once.Do
 			r.mu.Lock()
-			first := r.sdRes == "n"
-			if first {
-				r.sdRes = "p"
-			}
+			idx := len(r.sdRes)
+			r.sdRes = append(r.sdRes, "p")
 			r.mu.Unlock()
-			if first {
-				r.pending.Add(1)
-				go func() {
-					defer r.pending.Done()
-					err := bsp.Shutdown(context.Background())
-					r.mu.Lock()
-					if err == nil {
-						r.sdRes = "o"
-					} else {
-						r.sdRes = "e"
-					}
-					r.mu.Unlock()
-				}()
-			}
+			r.pending.Add(1)
+			go func() {
+				defer r.pending.Done()
+				shutdownCall(idx)()
+			}()
+		case op[0] == 'u': // OnEnd of an unsampled span: must return at once, nothing queued, nothing counted
+			id, _ := strconv.Atoi(op[1:])
+			r.pending.Add(1)
+			go func() {
+				defer r.pending.Done()
+				bsp.OnEnd(c01Span(id, false))
+			}()
 		case op[0] == 'e':
 			id, _ := strconv.Atoi(op[1:])
 			r.pending.Add(1)
@@ -455,7 +463,11 @@ func c01GenOps(r *vRand, n int) []string {
 	for i := 0; i < n; i++ {
 		switch k := r.Intn(20); {
 		case k < 10:
-			ops = append(ops, "e"+strconv.Itoa(nextID))
+			if r.Intn(5) == 0 {
+				ops = append(ops, "u"+strconv.Itoa(nextID)) // unsampled span
+			} else {
+				ops = append(ops, "e"+strconv.Itoa(nextID))
+			}
 			nextID++
 		case k < 14:
 			ops = append(ops, "g+")
@@ -486,6 +498,10 @@ func c01GenOps(r *vRand, n int) []string {
 			}
 		default:
 			ops = append(ops, "s")
+			// often a second (third) Shutdown caller right away: it must wait in stopOnce.Do until the first is done
+			for r.Intn(2) == 0 {
+				ops = append(ops, "s")
+			}
 		}
 	}
 	return ops
@@ -683,11 +699,16 @@ func c01OneHist(seed uint64) string {
 			})
 		}(f)
 	}
+	nsd := 0
 	if withSD {
+		nsd = 1 + r.Intn(3) // several concurrent Shutdown callers: one wins stopOnce, the others wait for it
+	}
+	for k := 0; k < nsd; k++ {
 		wg.Add(1)
+		delay := time.Duration(r.Intn(600)) * time.Microsecond
 		go func() {
 			defer wg.Done()
-			time.Sleep(time.Duration(r.Intn(600)) * time.Microsecond)
+			time.Sleep(delay)
 			exp.stamp("SC")
 			c01Watch(exp, func() {
 				err := bsp.Shutdown(context.Background())
